@@ -73,8 +73,13 @@ D_FLOAT = [
     d_tlc("MC_Float_refute_zero: with -0.0 reported negative", "MC_Float", "MC_Float_refute_zero.cfg", "int", expect="violated"),
     d_tlc("MC_Float_refute_sub: with subnormals read at EXP_MIN - 1", "MC_Float", "MC_Float_refute_sub.cfg", "int", expect="violated"),
 ]
+D_CONV = [
+    d_tlc("MC_Conv: to_fixed_helper (shift arms relative to the widest word) + overflowing_/saturating_from_fixed as coded = "
+          "floor shift / wrap / clamp, lost-bits direction, 1296 layout pairs x all values", "MC_Conv", "MC_Conv.cfg", "int"),
+    d_tlc("MC_Conv_refute: without the sign test on the cast", "MC_Conv", "MC_Conv_refute.cfg", "int", expect="violated"),
+]
 DESIGNS = {
-    "C01": [D_SEM] + D_MUL + D_DIV, "C02": [D_SEM] + D_MUL[:2] + D_MUL[6:11], "C03": [D_SEM] + D_CMP + D_FLOAT[:1], "C04": [D_SEM], "C05": D_FLOAT,
+    "C01": [D_SEM] + D_MUL + D_DIV, "C02": [D_SEM] + D_MUL[:2] + D_MUL[6:11], "C03": [D_SEM] + D_CMP + D_FLOAT[:1], "C04": [D_SEM] + D_CONV, "C05": D_FLOAT,
     "C06": [D_SEM, d_tlc("MC_Round: rounding methods as coded (masks, 0/1 integer-bit special cases) = exact roundings, every value, "
                          "68 layouts of widths 2..6 and 8", "MC_Round", "MC_Round.cfg", "int")],
     "C07": [D_SEM] + D_EUCLID, "C09": D_FMT,
@@ -340,8 +345,8 @@ def plan_text(pid, tier, seed):
     )
 
 
-MATH_FNS = {"C12": "sqrt,log2,ln,exp,pow,powi,sin,cos,tan", "C13": "sqrt", "C14": "log2,ln", "C15": "exp,pow,powi",
-            "C16": "sin,cos,tan", "C17": "sqrt,log2,ln,exp,pow,sin,cos,tan"}
+MATH_FNS = {"C12": "sqrt,sqrt16,log2,ln,exp,pow,powi,sin,cos,tan", "C13": "sqrt,sqrt16", "C14": "log2,ln", "C15": "exp,pow,powi",
+            "C16": "sin,cos,tan", "C17": "sqrt,sqrt16,log2,ln,exp,pow,sin,cos,tan"}
 
 
 def plan_math(pid, tier, seed):
@@ -350,11 +355,14 @@ def plan_math(pid, tier, seed):
     per = {"C12": 2500, "C13": 1500, "C14": 300, "C15": 400, "C16": 250, "C17": 8000}[pid]
     gens = [dict(name="math_" + p, profile=p, bin="math", dom="big", per_shard=per,
                  args=["--topic", fns, "--tier", tier, "--seed", str(seed)]) for p in profs]
+    # light sweep over 26 further signed (+5 unsigned, sqrt) layouts: limb-boundary neighbourhoods of the 128-bit family
+    gens += [dict(name="mathsweep_" + p, profile=p, bin="mathsweep", dom="big", per_shard=per,
+                  args=["--topic", fns, "--tier", tier, "--seed", str(seed)]) for p in profs]
     rules = {
         "C12": "all nine functions on the 10 signed + 4 unsigned (sqrt) LT layouts and 6 widening S->D pairs, under both build profiles: "
                "outcome kind must be Ok/Err (never panic, never the iteration-budget sentinel) for the Result functions, Err where the "
                "request is undefined; sin/cos must return for |x| <= 200 and tan for |x| <= 100 wherever the reference |tan x| <= 64.",
-        "C13": "sqrt on lattice values, every power of two +-3 ulp, random mantissas in every binade, perfect squares +-1 ulp, zero, one, "
+        "C13": "sqrt on EVERY value of the 16-bit layouts U8F8 and I8F8 (thorough: also U4F12 I4F12 U12F4 U16F0 I16F0), on lattice values, every power of two +-3 ulp, random mantissas in every binade, perfect squares +-1 ulp, zero, one, "
                "negative operands; integer certificate max(r-4,0)^2 <= x * 2^(2fD - fS) <= (r+4)^2, exactness at 0 and 1, Err only for "
                "negative operands or operands whose reciprocal does not fit.",
         "C14": "log2 and ln on every exact power of two, 1 +- k ulp, lattice and random mantissas in every binade, non-positive operands; "
@@ -371,13 +379,16 @@ def plan_math(pid, tier, seed):
                "budget sentinel (64 x the bound) must never fire.",
     }
     return dict(
-        bins=["math"], profiles=profs, gens=gens, designs=[],
+        bins=["math", "mathsweep"], profiles=profs, gens=gens, designs=[],
         nontrivial=lambda line: '"x":[0],' not in line,
         rule=rules[pid] + " Non-trivial: operand different from 0; distinct by event content.",
         assumptions=["TLC and BigInt.tla are trusted; the reference values are computed inside TLA+ (tla/sem/SemMath.tla) with an error "
                      "below 2^-160, and every tolerance is widened by that slack",
                      "layouts: I9F23, I9F55, I9F119, I16F48, I32F32, I41F23, I40F88, I64F64, I96F32, I105F23 (+U9F23, U32F32, U64F64, "
-                     "U96F32 for sqrt; powi is not callable with an unsigned destination, which lacks From<I9F23>)"],
+                     "U96F32 for sqrt; powi is not callable with an unsigned destination, which lacks From<I9F23>); light sweep (1/8 of "
+                     "the budgets) over I40F24 I33F31 I31F33 I24F40 I17F47 I10F54 I104F24 I97F31 I95F33 I81F47 I73F55 I72F56 I71F57 I69F59 "
+                     "I68F60 I67F61 I66F62 I65F63 I63F65 I62F66 I56F72 I48F80 I32F96 I24F104 I16F112 I10F118 (+U40F24 U31F33 U65F63 U67F61 "
+                     "U10F118 for sqrt)"],
     )
 
 
